@@ -79,6 +79,22 @@ pub fn menu_p2(a: usize, b: usize) -> Menu {
     }
 }
 
+/// precision 14, increment 3e14: amounts around 10^15, where 28-digit decimals run out of digits
+pub fn menu_large(a: usize, b: usize) -> Menu {
+    let inc = 300_000_000_000_000u128;
+    Menu {
+        ask_slots: a,
+        bid_slots: b,
+        prices: vec!["0.00000000000001", "0.00000000000003", "1.00000000000001"],
+        sizes: vec![inc, 2 * inc],
+        match_sizes: vec![inc, 2 * inc],
+        reject_sizes: vec![inc],
+        ask_bases: vec!["base", "conv"],
+        two_approvers: false,
+        modifies: vec![],
+    }
+}
+
 /// precision 2, increment 100
 pub fn menu_p3(a: usize, b: usize) -> Menu {
     Menu {
@@ -190,6 +206,7 @@ fn ledger_scenarios(tier: Tier, extra_probes: &dyn Fn(&Cfg, &Menu) -> Vec<Act>) 
     mk("B11/P0/F3/R0", Cfg::new(0, 1, ("0.5", "0.5"), "R0"), menu_p0(1, 1, vec!["1", "2"]), &mut v);
     mk("B11/P1/F1/R2/rur", with_markers(Cfg::new(0, 2, ("0.25", "0.25"), "R2"), "rur"), menu_p1(1, 1), &mut v);
     mk("B11/P2/F1/R0", Cfg::new(1, 10, ("0.25", "0.25"), "R0"), menu_p2(1, 1), &mut v);
+    mk("B11/p14/large-amounts", Cfg::new(14, 300_000_000_000_000, ("0.25", "0.25"), "R0"), menu_large(1, 1), &mut v);
     if tier == Tier::Thorough {
         mk("B22/P1/F1/R0", Cfg::new(0, 2, ("0.25", "0.25"), "R0"), menu_p1(2, 2), &mut v);
         mk("B21/P1/F2/R4", Cfg::new(0, 2, ("0.1", "0.1"), "R4"), Menu { prices: vec!["2", "7"], ..menu_p1(2, 1) }, &mut v);
@@ -361,6 +378,7 @@ pub fn plan(prop: &str, tier: Tier) -> Plan {
             mk("B11/P0/rate.001", Cfg::new(0, 1, ("0.001", "0.001"), "R0"), plain(menu_p0(1, 1, vec!["1", "7"])), &mut v);
             mk("B11/P0/rate1", Cfg::new(0, 1, ("0.9", "1"), "R0"), plain(menu_p0(1, 1, vec!["1", "2"])), &mut v);
             mk("B11/P2/F1", Cfg::new(1, 10, ("0.25", "0.25"), "R0"), plain(menu_p2(1, 1)), &mut v);
+            mk("B11/p14/large-amounts", Cfg::new(14, 300_000_000_000_000, ("0.25", "0.25"), "R0"), plain(menu_large(1, 1)), &mut v);
             if th {
                 mk("B12/P1big/F1", Cfg::new(0, 2, ("0.25", "0.25"), "R0"), plain(menu_p1_big(1, 2)), &mut v);
                 mk("B12/P1/third", Cfg::new(0, 2, ("0.333", "0.333"), "R0"), plain(Menu { sizes: vec![2, 4, 6], match_sizes: vec![1, 2, 3, 4, 5, 6], ..menu_p1(1, 2) }), &mut v);
